@@ -124,6 +124,8 @@ class Gen:
             choices += ["call", "call"]
         if "create" in self.f and depth > 0:
             choices += ["create", "create", "create"]
+        if "create2" in self.f:
+            choices = ["create2", "create2", "create2", "create2", "mstore"] + (["call"] if self.pool else [])
         if "symcall" in self.f:
             choices = ["symcall", "symcall", "symcall", "extcode", "extcode", "mstore", "call", "if"]
         if "valuecall" in self.f and self.pool:
@@ -189,10 +191,25 @@ class Gen:
             return self.cond() + [("ref", l_ok), "JUMPI"] + tail + [("label", l_ok)]
         if k == "loop":
             return self.loop(depth - 1)
+        if k == "call" and "create2" in self.f:
+            # every creating callee is called at most once per program: a second call with a differently spelled
+            # argument would be a second creation whose (sender, salt, init code) may or may not be the first one's
+            done = getattr(self, "c2_called", set())
+            left = [a for a in self.pool if a not in done]
+            if not left:
+                return self.expr(2) + [("push", r.choice([0, 32, 64])), "MSTORE"]
+            saved, self.pool = self.pool, [r.choice(left)]
+            self.c2_called = done | set(self.pool)
+            try:
+                return self.call(depth - 1)
+            finally:
+                self.pool = saved
         if k == "call":
             return self.call(depth - 1)
         if k == "create":
             return self.create()
+        if k == "create2":
+            return self.create2()
         raise ValueError(k)
 
     def cond(self):
@@ -432,6 +449,60 @@ class Gen:
             items += [("pushn", 4, 0xAAAA0000 + k), r.choice(["EXTCODEHASH", "EXTCODEHASH", "EXTCODESIZE"]), ("push", 96), "MSTORE"]
         return items
 
+    def create2(self):
+        """CREATE2 of init code that is fully concrete or a concrete constructor followed by a (symbolic)
+        constructor argument; the constructor may jump, branch on its argument, revert with data, look at its
+        context; afterwards the creator looks at the result: address, returndata buffer, EXTCODE* / BALANCE of the
+        new account, a call into the deployed code, the same creation once more (collision), a CREATE (the CREATE
+        address counter is not consumed by CREATE2).
+        Every init code of a program carries its own tag byte, so two creations of one program have either
+        the very same (sender, salt, init code) spelling or different init codes: see DESIGN.md 10.2.x for why
+        semantically-equal-but-differently-spelled creations are kept out."""
+        r = self.r
+        self.c2n = getattr(self, "c2n", 0) + 1
+        tag = getattr(self, "c2tag_base", 0x10) + self.c2n
+        rt = assemble(r.choice(C2_RUNTIMES))
+        kind = r.choice(["ok", "jump", "jump", "args", "args", "args", "args", "revert_data", "invalid", "ctx"])
+        init = c2_ctor(r, tag, kind, rt)
+        base, n = 256, len(init)
+        place = place_code(init, base)
+        if kind == "args":
+            argv = self.arg() if r.random() < 0.85 else [("push", r.choice([0, 1, 5, 7]))]
+            place += argv + [("push", base + n), "MSTORE"]
+            n += 32
+        twice = r.random() < 0.35
+        salts = [[("push", 0)], [("push", 1)], [("push", 5)], [("pushn", 32, (1 << 256) - 1)], ["CALLER"]]
+        if not (twice and kind == "args"):
+            # (a constructor that branches on `argument == constant` pins the calldata word: halmos then reads it back as
+            #  the constant, and the second creation would be SPELLED differently from the first)
+            salts += [self.arg(), self.arg()]
+        salt = r.choice(salts)
+        value = [("push", r.choice([0, 0, 0, 1, 1000]))] if r.random() < 0.8 else self.arg()
+        again = salt + [("push", n), ("push", base)] + value + ["CREATE2"]       # the init code stays where it is
+        items = place + again + [("push", 192), "MSTORE"]
+        c = r.random()
+        if c < 0.35:
+            items += ["RETURNDATASIZE", ("push", 160), "MSTORE"]
+        elif c < 0.7:
+            items += ["RETURNDATASIZE", "PUSH0", ("push", 128), "RETURNDATACOPY"]
+        if r.random() < 0.5:
+            items += [("push", 192), "MLOAD", r.choice(["EXTCODESIZE", "EXTCODESIZE", "EXTCODEHASH", "BALANCE"]), ("push", 96), "MSTORE"]
+        if r.random() < 0.5:
+            # call into the deployed code (address 0 when the creation failed: an empty account)
+            kindc = r.choice(["CALL", "CALL", "STATICCALL", "DELEGATECALL"])
+            items += self.expr(0) + ["PUSH0", "MSTORE", ("push", 64), ("push", 128), ("push", 32), "PUSH0"]
+            if kindc == "CALL":
+                items += [("push", r.choice([0, 0, 1]))]
+            items += [("push", 192), "MLOAD", ("push", 100000), kindc, ("push", 224), "MSTORE"]
+        if twice:
+            # the very same creation again: the address is taken if (and only if) the first one succeeded
+            items += again + [("push", 64), "MSTORE", "RETURNDATASIZE", ("push", 32), "MSTORE"]
+        if r.random() < 0.3:
+            # a CREATE afterwards gets the first address of the CREATE scheme: CREATE2 does not consume the counter
+            tiny = assemble([("push", 0xFE), "PUSH0", "MSTORE8", ("push", 1), "PUSH0", "RETURN"])
+            items += place_code(tiny, 256) + [("push", len(tiny)), ("push", 256), "PUSH0", "CREATE", "PUSH0", "MSTORE"]
+        return items
+
     def symjump_tail(self):
         """JUMP to a destination computed from an input (--symbolic-jump): a table of landing pads,
         each returning its own marker; the selector mixes valid destinations, offsets and raw input"""
@@ -462,7 +533,7 @@ class Gen:
         if epilogue:
             c = self.r.random()
             if c < 0.75:
-                sizes = [224, 256, 256] if ("call" in self.f or "create" in self.f) else [32, 64, 96, 224]
+                sizes = [224, 256, 256] if ("call" in self.f or "create" in self.f or "create2" in self.f) else [32, 64, 96, 224]
                 items += [("push", self.r.choice(sizes)), "PUSH0", "RETURN"]
             elif c < 0.85:
                 items += ["STOP"]
@@ -471,6 +542,101 @@ class Gen:
             else:
                 items += []
         return items
+
+
+# ---------------------------------------------------------------- CREATE2
+# runtime codes (at most 32 bytes) a constructor deploys
+C2_RUNTIMES = [
+    ["CALLER", "PUSH0", "MSTORE", "ADDRESS", ("push", 32), "MSTORE", ("push", 64), "PUSH0", "RETURN"],
+    [("push", 7), "PUSH0", "SSTORE", "CALLVALUE", ("push", 1), "SSTORE", "STOP"],
+    ["PUSH0", "CALLDATALOAD", ("push", 1), "SSTORE", ("push", 1), "SLOAD", "PUSH0", "MSTORE", ("push", 32), "PUSH0", "RETURN"],
+    ["PUSH0", "CALLDATALOAD", "PUSH0", "MSTORE", ("push", 32), "PUSH0", "REVERT"],
+    ["STOP"],
+]
+
+
+def place_code(code, base):
+    """items that store `code` at mem[base ...], word by word (the last word zero padded)"""
+    items = []
+    for i in range(0, len(code), 32):
+        items += [("pushn", 32, int.from_bytes(code[i:i + 32].ljust(32, b"\0"), "big")), ("push", base + i), "MSTORE"]
+    return items
+
+
+def c2_ctor(rng, tag, kind, rt):
+    """init code; `tag` (1..255) makes it unlike every other init code of the program.
+    kind: ok | jump | revert_data | invalid | ctx | args (reads the 32-byte constructor argument that
+    follows the code, jumps over a trap and branches on the argument)"""
+    assert 1 <= tag <= 255 and len(rt) <= 32
+    head = [("pushn", 1, tag), "POP"]
+
+    def deploy(code):
+        return [("pushn", 32, int.from_bytes(code.ljust(32, b"\0"), "big")), "PUSH0", "MSTORE", ("push", len(code)), "PUSH0", "RETURN"]
+
+    if kind == "ok":
+        return assemble(head + deploy(rt))
+    if kind == "jump":
+        # an unconditional jump over a trap, then a decided JUMPI
+        return assemble(head + [("ref", "A"), "JUMP", "INVALID", ("label", "A"), ("push", 1), ("ref", "B"), "JUMPI", "INVALID", ("label", "B")] + deploy(rt))
+    if kind == "revert_data":
+        return assemble(head + [("push", rng.choice([0xAB, 0xCD00, 1])), "PUSH0", "MSTORE", ("push", 7), ("push", 1), "SSTORE", ("push", rng.choice([32, 33, 1, 0])), "PUSH0", "REVERT"])
+    if kind == "invalid":
+        return assemble(head + [("push", 5), "PUSH0", "SSTORE", "INVALID"])
+    if kind == "ctx":
+        return assemble(head + ["CALLDATASIZE", "PUSH0", "MSTORE", "CALLER", ("push", 32), "MSTORE", rng.choice(["ADDRESS", "CALLVALUE", "CODESIZE", "SELFBALANCE"]), ("push", 64), "MSTORE",
+                                ("push", 96), "PUSH0", "RETURN"])
+    assert kind == "args"
+    test = rng.choice([[], ["ISZERO"], [("push", rng.choice([1, 5, 7])), "LT"], [("push", rng.choice([0, 5, 7])), "EQ"], [("push", 5), "GT"], [("push", 1), "AND"]])
+
+    def ending():
+        e = rng.choice(["deploy", "deploy", "deploy_other", "revert", "revert_arg", "immutable", "store_deploy"])
+        if e == "deploy":
+            return deploy(rt)
+        if e == "deploy_other":
+            return deploy(assemble([("push", 0xEE), "PUSH0", "MSTORE", ("push", 32), "PUSH0", "RETURN"]))
+        if e == "revert":
+            return ["PUSH0", "PUSH0", "REVERT"]
+        if e == "revert_arg":
+            return [("push", 32), "PUSH0", "REVERT"]                 # mem[0:32] holds the argument
+        if e == "store_deploy":
+            return ["PUSH0", "MLOAD", ("push", 3), "SSTORE"] + deploy(rt)   # constructor writes its argument to the new account's storage
+        # the argument becomes an immutable of the deployed code:  PUSH32 <arg> PUSH0 MSTORE PUSH1 32 PUSH0 RETURN
+        tail = assemble(["PUSH0", "MSTORE", ("push", 32), "PUSH0", "RETURN"])
+        return ["PUSH0", "MLOAD", ("push", 32), "MSTORE", ("push", 0x7F), ("push", 31), "MSTORE8",
+                ("pushn", 32, int.from_bytes(tail.ljust(32, b"\0"), "big")), ("push", 64), "MSTORE", ("push", 33 + len(tail)), ("push", 31), "RETURN"]
+
+    def build(n):
+        return assemble(head + [("push", 32), ("pushn", 1, n), "PUSH0", "CODECOPY", ("ref", "A"), "JUMP", "INVALID", ("label", "A"),
+                                "PUSH0", "MLOAD"] + test + [("ref", "B"), "JUMPI"] + e1 + [("label", "B")] + e2)
+
+    e1, e2 = ending(), ending()
+    n = len(build(0))
+    assert n < 256
+    return build(n)
+
+
+def c2_callee(rng, idx):
+    """a callee that CREATE2s (its own address -- or, under DELEGATECALL / CALLCODE, its caller's -- is the
+    sender) and reports the result; salts are constants: the spelling of (sender, salt, init) is the same on
+    every call"""
+    rt = assemble(rng.choice(C2_RUNTIMES))
+    kind = rng.choice(["ok", "jump", "args", "args", "revert_data"])
+    init = c2_ctor(rng, 0x80 + idx, kind, rt)
+    n = len(init)
+    items = place_code(init, 256)
+    if kind == "args":
+        items += ["PUSH0", "CALLDATALOAD", ("push", 256 + n), "MSTORE"]
+        n += 32
+    items += [("push", rng.choice([0, 1, 5])), ("push", n), ("push", 256), rng.choice([[("push", 0)], [("push", 0)], ["CALLVALUE"]])[0], "CREATE2"]
+    items += ["DUP1", "PUSH0", "MSTORE", rng.choice(["EXTCODESIZE", "EXTCODEHASH"]), ("push", 32), "MSTORE"]
+    if rng.random() < 0.4:
+        items += ["PUSH0", "MLOAD", ("push", 2), "SSTORE"]
+    end = rng.choice(["return", "return", "return", "revert", "invalid"])
+    if end == "return":
+        return items + [("push", 64), "PUSH0", "RETURN"]
+    if end == "revert":
+        return items + [("push", 64), "PUSH0", "REVERT"]       # the creation is rolled back with the frame
+    return items + ["INVALID"]
 
 
 def branchy_callee(rng):
